@@ -97,6 +97,20 @@ Proof.
   destruct (f_rec (b_flag b)) eqn:E; intro H; [apply IH; lia | exact E].
 Qed.
 
+Lemma nth_skipn_add {A} b k (l : list A) d : nth k (skipn b l) d = nth (b + k) l d.
+Proof. revert l. induction b as [|b IH]; intro l; [reflexivity|]. destruct l as [|x l]; [destruct k; reflexivity|]. cbn. apply IH. Qed.
+Lemma ff_le b l : find_free_from b l <= length l.
+Proof.
+  unfold find_free_from. destruct (b <=? length l) eqn:E; [|lia]. apply Nat.leb_le in E.
+  pose proof (find_free_le (skipn b l)) as H. rewrite skipn_length in H. lia.
+Qed.
+Lemma ff_free b l : find_free_from b l < length l -> f_rec (b_flag (getb (find_free_from b l) l)) = false.
+Proof.
+  unfold find_free_from. destruct (b <=? length l) eqn:E; [|lia]. apply Nat.leb_le in E. intro H.
+  assert (Hk : find_free (skipn b l) < length (skipn b l)) by (rewrite skipn_length; lia).
+  pose proof (find_free_free _ Hk) as Hf. unfold getb in *. rewrite nth_skipn_add in Hf. exact Hf.
+Qed.
+
 Lemma getb_removelast i l : i < length l - 1 -> getb i (removelast l) = getb i l.
 Proof.
   intro H. destruct l as [|x l'] eqn:E; [reflexivity|]. rewrite <- E in *.
@@ -278,7 +292,7 @@ Qed.
 
 (* ------------------------------------------------------------------ recorder steps *)
 Ltac simp := cbn [bufs curr chan shl wl file pc todo done with_pc with_bufs with_curr with_chan with_shl
-                  with_wl with_file with_todo with_done] in *.
+                  with_wl with_file with_todo with_done with_base base] in *.
 
 Lemma committed_size0 b : b_size b = 0 -> committed b = [].
 Proof. unfold committed. intros ->. reflexivity. Qed.
@@ -765,17 +779,17 @@ Qed.
 Lemma p_pick single recs cap s r : pc s = PPick r -> Inv single recs s -> Inv single recs (pstep single cap s).
 Proof.
   intros Epc HI. unfold pstep. rewrite Epc. open_inv HI Epc.
-  set (i := find_free (bufs s)).
+  set (i := find_free_from (base s) (bufs s)).
   set (l := if i <? length (bufs s) then bufs s else bufs s ++ [fresh_buf]).
   set (g := fun b => set_flag (or_rec (b_flag b)) b).
   assert (Hpe : pend s = others s) by (unfold pend, curl; rewrite Hcur; apply app_nil_r).
-  assert (Hile : i <= length (bufs s)) by apply find_free_le.
+  assert (Hile : i <= length (bufs s)) by apply ff_le.
   assert (Hil : i < length l).
   { unfold l. destruct (i <? length (bufs s)) eqn:E; [apply Nat.ltb_lt; exact E|].
     rewrite app_length. cbn. lia. }
   assert (Hib : f_rec (b_flag (getb i l)) = false /\ b_size (getb i l) = 0).
   { unfold l. destruct (i <? length (bufs s)) eqn:E.
-    - apply Nat.ltb_lt in E. pose proof (find_free_free (bufs s) E) as Hf. fold i in Hf.
+    - apply Nat.ltb_lt in E. pose proof (ff_free (base s) (bufs s) E) as Hf. fold i in Hf.
       split; [exact Hf | apply Hfree; exact Hf].
     - apply Nat.ltb_ge in E. assert (i = length (bufs s)) as -> by lia.
       rewrite getb_app_fresh. split; reflexivity. }
@@ -910,33 +924,28 @@ Proof.
 Qed.
 
 (* exec between two hook calls *)
-Lemma committed_busy b : committed (busy b) = committed b.
-Proof. reflexivity. Qed.
-Lemma getb_map_busy i l : i < length l -> getb i (map busy l) = busy (getb i l).
-Proof. intro H. unfold getb. rewrite (nth_indep _ fresh_buf (busy fresh_buf)) by (rewrite map_length; exact H). apply map_nth. Qed.
-
 Lemma xstep_inv single recs s : Inv single recs s -> Inv single recs (xstep s).
 Proof.
   intro HI. unfold xstep. destruct (pc s) eqn:Epc; try exact HI. destruct (curr s) as [c|] eqn:Ec; [|exact HI].
   open_inv HI Epc.
-  set (l' := map busy (bufs s) ++ [fresh_buf; fresh_buf]).
-  set (s' := with_pc (PXStart (length (bufs s)) c) (with_bufs l' s)).
+  set (l' := bufs s ++ [fresh_buf; fresh_buf]).
+  set (s' := with_pc (PXStart (length (bufs s)) c) (with_base (length (bufs s)) (with_bufs l' s))).
   assert (Hp' : pend s' = pend s) by reflexivity.
-  assert (Hg : forall i, i < length (bufs s) -> getb i l' = busy (getb i (bufs s))).
-  { intros i Hi. unfold l'. rewrite getb_app1 by (rewrite map_length; exact Hi). apply getb_map_busy. exact Hi. }
+  assert (Hg : forall i, i < length (bufs s) -> getb i l' = getb i (bufs s)).
+  { intros i Hi. unfold l'. apply getb_app1. exact Hi. }
   assert (Hc' : content s' = content s).
   { unfold content. rewrite Hp'. unfold s'. simp. f_equal. unfold body. f_equal. apply map_ext_in. intros i Hi.
-    destruct (Hrec i Hi) as [Hl _]. rewrite (Hg i Hl). apply committed_busy. }
+    destruct (Hrec i Hi) as [Hl _]. rewrite (Hg i Hl). reflexivity. }
   constructor; try (rewrite Hc'); try (rewrite Hp'); subst s'; close_fields; try assumption; try exact I;
     try (keep_recs Hrecs).
-  - intros i Hi. destruct (Hrec i Hi) as [Hl Hf]. unfold l'. rewrite app_length, map_length. split; [lia|].
-    fold l'. rewrite (Hg i Hl). reflexivity.
+  - intros i Hi. destruct (Hrec i Hi) as [Hl Hf]. unfold l'. rewrite app_length. split; [lia|].
+    fold l'. rewrite (Hg i Hl). exact Hf.
   - intros i Hf. destruct (Nat.lt_ge_cases i (length (bufs s))) as [Hl|Hge].
-    + rewrite (Hg i Hl) in Hf. cbn in Hf. discriminate.
-    + unfold l', getb. rewrite app_nth2 by (rewrite map_length; exact Hge). rewrite map_length.
+    + rewrite (Hg i Hl) in Hf |- *. apply Hfree. exact Hf.
+    + unfold l', getb. rewrite app_nth2 by exact Hge.
       destruct (i - length (bufs s)) as [|[|k]]; try reflexivity. destruct k; reflexivity.
-  - unfold l'. rewrite app_length, map_length. cbn [length]. split; [lia|].
-    unfold getb. rewrite app_nth2 by (rewrite map_length; lia). rewrite map_length, Nat.sub_diag. reflexivity.
+  - unfold l'. rewrite app_length. cbn [length]. split; [lia|].
+    unfold getb. rewrite app_nth2 by lia. rewrite Nat.sub_diag. reflexivity.
 Qed.
 
 Lemma pstep_inv single recs cap s : Inv single recs s -> Inv single recs (pstep single cap s).
